@@ -1,6 +1,7 @@
 (* props/C13.v - C13: the pair potential is the shifted, truncated 12-6 Lennard-Jones law (reals). *)
 From Coq Require Import ZArith List Bool Reals. Import ListNotations.
 From PV Require Import Num NumR model.Geom proofs.LatticeFacts proofs.SiteFacts proofs.OverlapFacts proofs.PackingFacts proofs.LJFacts.
+From PV Require Import gen.GenFns proofs.SourceFacts.
 
 Theorem C13_lj_is_12_6 :
   forall (a b : ljR) (r : R), lcut NumR a = None -> (0 < r)%R -> (r * r)%R = r2_of a b -> energy
@@ -70,4 +71,16 @@ Theorem C13_molecule_energy_symmetric_like :
     ljshape_energy NumR rpowi a b = ljshape_energy NumR rpowi b a.
 Proof. exact molecule_energy_symmetric_like. Qed.
 Print Assumptions C13_molecule_energy_symmetric_like.
+
+
+Theorem C13_lj_energy_is_source :
+  forall (NN : Num) (powi : carrier NN -> Z -> carrier NN) (a b : lj NN), gen_lj_energy NN powi
+    a b = lj_energy NN powi a b.
+Proof. exact lj_energy_is_source. Qed.
+Print Assumptions C13_lj_energy_is_source.
+
+Theorem C13_source_translated :
+  gen_fns_problem = String.EmptyString.
+Proof. exact source_translated. Qed.
+Print Assumptions C13_source_translated.
 
